@@ -113,7 +113,7 @@ fn run(ctx: &Ctx, rep: &Report) {
     }
     rep.counts(&local);
     // built corpus, all four key types
-    let n: u64 = ctx.tier.pick(300, 8000);
+    let n: u64 = ctx.tier.pick(300, 30_000);
     let base = ctx.work_dir("build");
     par_for(ctx.threads, n, 1, |i| {
         let mut rng = Rng::for_case(ctx.seed, "C16-built", i);
@@ -136,7 +136,7 @@ fn run(ctx: &Ctx, rep: &Report) {
     });
     let _ = std::fs::remove_dir_all(&base);
     // hand-encoded
-    let nh: u64 = ctx.tier.pick(5000, 300_000);
+    let nh: u64 = ctx.tier.pick(5000, 3_000_000);
     let chunk = 100u64;
     par_for(ctx.threads, nh / chunk, 1, |c| {
         let mut rng = Rng::for_case(ctx.seed, "C16-hdr", c);
